@@ -100,7 +100,8 @@ def pgEncodeOnFail (s : Setting) (binary : Bool) (d64 : Default64) : Except Res 
 
 /-- `PgSQLDataEncoderProcessor.OnColumn` -/
 def pgEncode (s : Setting) (binary decrypted : Bool) (saved : Option Bytes) (d64 : Default64) (data : Bytes) : Res :=
-  if data.isEmpty then .value data false else
+  -- empty data: give back the value saved by the decoder, if any (after the `fix:` for "\\x")
+  if data.isEmpty then .value (saved.getD data) false else
   match s.dataType with
   | some .int32 | some .int64 =>
     let bits := bitsOf (s.dataType.getD .int32)
